@@ -7,7 +7,7 @@ OUT=${2:-/verif/.cache/facts/cur}
 TGT=${3:-/verif/.cache/target}
 HERE=$(cd "$(dirname "$0")" && pwd)
 DRV=$HERE/driver/target/release/vdrv
-[ -x "$DRV" ] || (cd "$HERE/driver" && cargo build --release --offline >&2)
+(cd "$HERE/driver" && cargo build --release --offline >&2)
 mkdir -p "$OUT" "$TGT"
 rm -f "$OUT"/*.json
 SYSROOT=$(rustc +nightly --print sysroot)
